@@ -4,3 +4,6 @@ import RSVerif.Properties.C04
 #print axioms RS.layout_placement
 #print axioms RS.output_bytes_of_slot
 #print axioms RS.lengths
+#print axioms RS.blocks_insert
+#print axioms RS.blocks_expose
+#print axioms RS.blocks_lanewise
